@@ -1,6 +1,7 @@
 #!/bin/bash
 # Run the C20 check against every seeded change under /verif/seeded (and, optionally, a directory of extra .diff files):
 # apply to /repo, run, record what was reported, revert. Development tool; never leaves /repo modified.
+# Also runs /verif/mutants-own/*.diff (must be caught) and /verif/controls/*/patch.diff (must stay silent).
 # usage: seeded_all.sh [tier] [extra-diff-dir]
 tier="${1:-quick}"; extra="${2:-}"
 cd /repo || exit 2
@@ -31,6 +32,12 @@ run_one() { # name patch outfile
 for d in /verif/seeded/*/; do
   n=$(basename $d)
   run_one "$n" "$d/patch.diff" "$d/detected.txt"
+done
+for f in /verif/mutants-own/*.diff; do
+  n=$(basename $f .diff); mkdir -p /verif/mutants-own/detected; run_one "$n" "$f" "/verif/mutants-own/detected/$n.txt"
+done
+for d in /verif/controls/*/; do
+  n=$(basename $d); run_one "$n" "$d/patch.diff" "$d/detected.txt"
 done
 if [ -n "$extra" ]; then
   mkdir -p /tmp/extra_detect
